@@ -15,7 +15,7 @@ from ..dynamic_typing import (
     StringLiteral,
     StringSerializable
 )
-from ..dynamic_typing.base import NoneType
+from ..dynamic_typing.base import NoneType, UnknownType
 
 
 def convert_strings(str_field_paths: List[str], class_type: Optional[ClassType] = None,
@@ -178,7 +178,7 @@ def get_string_field_paths(model: ModelMeta) -> List[Tuple[str, List[str]]]:
                     # We could not resolve Union
                     paths = []
                     break
-                elif cls is NoneType:
+                elif cls in (NoneType, UnknownType):
                     continue
                 elif cls in (StringLiteral,):
                     continue
